@@ -197,7 +197,7 @@ func methodGrid() []MethodCase {
 		}
 	}
 	// other input types
-	for _, j := range []string{`null`, `true`, `false`, `"abc"`, `""`, `"true"`, `"T"`, `"yes"`, `"No"`, `"on"`, `"OFF"`, `"1"`, `"0"`, `"2"`, `"tru"`, `" 1"`, `"1 "`, `"0x10"`, `"1_0"`, `"1e5"`, `"1.0"`, `"+1"`, `"-0"`, `"Infinity"`, `"NaN"`, `"nan"`, `"inf"`, `[]`, `[1,2.5,"3"]`, `[[1]]`, `[null]`, `{}`, `{"a":1}`, `{"a":1,"b":{"c":2}}`, `[{"a":1},{"b":2}]`, `"2015-08-01"`, `"12:34:56"`} {
+	for _, j := range []string{`null`, `true`, `false`, `"abc"`, `""`, `"true"`, `"T"`, `"yes"`, `"No"`, `"on"`, `"OFF"`, `"1"`, `"0"`, `"2"`, `"tru"`, `"ye\u017f"`, `"fal\u017fe"`, `"YE\u017f"`, `"\u017f"`, `"o\uff2e"`, `"TRUE"`, `"yEs"`, `"oFf"`, `"N"`, `" 1"`, `"1 "`, `"0x10"`, `"1_0"`, `"1e5"`, `"1.0"`, `"+1"`, `"-0"`, `"Infinity"`, `"NaN"`, `"nan"`, `"inf"`, `[]`, `[1,2.5,"3"]`, `[[1]]`, `[null]`, `{}`, `{"a":1}`, `{"a":1,"b":{"c":2}}`, `[{"a":1},{"b":2}]`, `"2015-08-01"`, `"12:34:56"`} {
 		for _, m := range simple {
 			for _, strict := range []bool{false, true} {
 				for _, repr := range []string{"json", "jsonnum"} {
